@@ -82,6 +82,10 @@ func init() {
 		fnSpecs = append(fnSpecs, fnSpec{"protocol/thrift", "SkipDecoder", n, "SD_" + n})
 	}
 	fnSpecs = append(fnSpecs, fnSpec{"protocol/ttheader", "", "Decode", "tth_Decode"})
+	for _, n := range []string{"WriteMessageBegin", "WriteFieldBegin", "WriteFieldStop", "WriteMapBegin", "WriteListBegin", "WriteSetBegin",
+		"WriteBinary", "WriteString", "WriteBool", "WriteByte", "WriteI16", "WriteI32", "WriteI64", "WriteDouble"} {
+		fnSpecs = append(fnSpecs, fnSpec{"protocol/thrift", "BufferWriter", n, "BW_" + n})
+	}
 	fnSpecs = append(fnSpecs, fnSpec{"protocol/thrift/base", "BaseResp", "FastRead", "BaseResp_FastRead"})
 	fnSpecs = append(fnSpecs, fnSpec{"protocol/thrift/base", "Base", "FastRead", "Base_FastRead"})
 	for _, n := range []string{"appendUint32", "appendUint64"} {
@@ -276,6 +280,9 @@ func ifaceRecv(t types.Type) (string, bool) {
 		if ft.Obj().Pkg() != nil && ft.Obj().Pkg().Path() == mod+"bufiox" && ft.Obj().Name() == "Reader" {
 			return "ReaderI", true
 		}
+		if ft.Obj().Pkg() != nil && ft.Obj().Pkg().Path() == mod+"bufiox" && ft.Obj().Name() == "Writer" {
+			return "WriterI", true
+		}
 	case *types.TypeParam:
 		if it, ok := ft.Constraint().Underlying().(*types.Interface); ok && it.NumMethods() == 1 && it.Method(0).Name() == "SkipN" {
 			return "SkipNI", true
@@ -394,10 +401,18 @@ type fctx struct {
 	named   []types.Object // named results
 	globals map[string]bool
 	deps    map[*fnInfo]bool
+	regions []region // slices obtained from the abstract writer's Malloc on the current path: committed at every return
+	pendingRegion string // handle expression of the Malloc call just translated (bound to its slice variable by assign)
 	ftVar   string   // Lean name of the variable of the last fieldTarget
 	loop    *loopCtx // innermost enclosing loop (nil at function level)
 	fuel    bool
 	inSw    int // depth of enclosing switch statements inside the innermost loop
+}
+
+// a region handed out by `Malloc`: the local slice variable and the Lean name of its handle
+type region struct {
+	obj    types.Object
+	handle string
 }
 
 // a `for` loop becomes a recursive Lean function over fuel; its result is `LoopR ρ σ`: the enclosing function returns
@@ -1085,8 +1100,11 @@ func (f *fctx) switchStmt(b *blk, st *ast.SwitchStmt, tail []ast.Stmt, depth int
 			}
 		}
 		cond := strings.Join(conds, " || ")
+		nreg := len(f.regions)
 		thenL := f.stmts(cc.Body, tail, depth+1)
+		f.regions = f.regions[:nreg]
 		elseL := gen(k + 1)
+		f.regions = f.regions[:nreg]
 		cb.add("if " + cond + " then do")
 		cb.add(strings.TrimRight(indent(thenL, 1), "\n"))
 		cb.add("else do")
@@ -1118,8 +1136,11 @@ func (f *fctx) ifStmt(b *blk, st *ast.IfStmt, tail []ast.Stmt, depth int) {
 		f.fail(st, "else form not supported")
 	}
 	// names defined inside a branch must not leak into the other branch's numbering: names are per object, fine
+	nreg := len(f.regions)
 	thenLines := f.stmts(st.Body.List, tail, depth+1)
+	f.regions = f.regions[:nreg]
 	elseLines := f.stmts(els, tail, depth+1)
+	f.regions = f.regions[:nreg]
 	b.add("if " + cond + " then do")
 	b.add(strings.TrimRight(indent(thenLines, 1), "\n"))
 	b.add("else do")
@@ -1130,6 +1151,11 @@ func (f *fctx) ifStmt(b *blk, st *ast.IfStmt, tail []ast.Stmt, depth int) {
 func (f *fctx) pureResult(b *blk, vals []string) {
 	var parts []string
 	sig := f.fi.obj.Type().(*types.Signature)
+	for _, rg := range f.regions {
+		// what the function stored in a Malloc'ed region becomes the region's content in the writer
+		rn := f.nameOf(f.fi.recv)
+		b.add(fmt.Sprintf("let %s := I.commit %s %s %s", rn, rn, rg.handle, f.nameOf(rg.obj)))
+	}
 	if f.fi.recvMut {
 		parts = append(parts, f.nameOf(f.fi.recv))
 	}
@@ -1285,6 +1311,8 @@ func (f *fctx) assign(b *blk, st *ast.AssignStmt) {
 				} else if !ok {
 					if _, ft, isF := f.fieldTarget(st.Lhs[i]); isF {
 						want = ft
+					} else if ix, isIx := stripParens(st.Lhs[i]).(*ast.IndexExpr); isIx {
+						want = f.elemType(ix)
 					} else if f.lhsObj(st.Lhs[i]) == nil {
 						f.fail(st, "assignment target %T not supported", st.Lhs[i])
 					}
@@ -1303,6 +1331,10 @@ func (f *fctx) assign(b *blk, st *ast.AssignStmt) {
 				}
 			}
 			for i, l := range st.Lhs {
+				if ix, isIx := stripParens(l).(*ast.IndexExpr); isIx {
+					f.storeVal(b, ix, vals[i])
+					continue
+				}
 				f.bindTarget(b, st, l, vals[i])
 			}
 			return
@@ -1312,9 +1344,20 @@ func (f *fctx) assign(b *blk, st *ast.AssignStmt) {
 			if !ok {
 				f.fail(st, "multi-assignment from a non-call")
 			}
+			f.pendingRegion = ""
 			vals := f.callMulti(b, call, len(st.Lhs))
 			for i, l := range st.Lhs {
 				f.bindTarget(b, st, l, vals[i])
+			}
+			if f.pendingRegion != "" {
+				if o := f.lhsObj(st.Lhs[0]); o != nil {
+					h := f.fresh()
+					b.add(fmt.Sprintf("let %s := %s", h, f.pendingRegion))
+					f.regions = append(f.regions, region{o, h})
+				} else {
+					f.fail(st, "the slice returned by Malloc must be bound to a variable")
+				}
+				f.pendingRegion = ""
 			}
 			return
 		}
@@ -1427,6 +1470,15 @@ func (f *fctx) viewOf(b *blk, e ast.Expr) (types.Object, string, bool) {
 			return nil, "", false
 		}
 		o := f.pk.TypesInfo.Uses[id]
+		if v, ok := o.(*types.Var); ok && !f.views[o] && leanType(v.Type()) == tBytes && v.Parent() != v.Pkg().Scope() {
+			if _, known := f.names[o]; known {
+				// a tail of a local slice
+				lo := f.expr(b, x.Low)
+				t := f.fresh()
+				b.add(fmt.Sprintf("let %s ← vfrom %s 0 %s", t, f.nameOf(o), atom(lo)))
+				return o, t, true
+			}
+		}
 		if o == nil || !f.views[o] {
 			return nil, "", false
 		}
@@ -1438,12 +1490,25 @@ func (f *fctx) viewOf(b *blk, e ast.Expr) (types.Object, string, bool) {
 	return nil, "", false
 }
 
+// elemType: the element type stored by `x[i] = …` (a byte for slices, the value type for maps)
+func (f *fctx) elemType(ix *ast.IndexExpr) types.Type {
+	if mt, ok := f.pk.TypesInfo.TypeOf(ix.X).Underlying().(*types.Map); ok {
+		return mt.Elem()
+	}
+	return types.Typ[types.Uint8]
+}
+
 func (f *fctx) store(b *blk, ix *ast.IndexExpr, rhs ast.Expr) {
+	f.storeVal(b, ix, f.exprAs(b, rhs, f.elemType(ix)))
+}
+
+// storeVal: `x[i] = v` with v already translated
+func (f *fctx) storeVal(b *blk, ix *ast.IndexExpr, rhsVal string) {
 	if fld, ft, ok := f.fieldTarget(ix.X); ok && isMap(ft) {
 		mt := ft.Underlying().(*types.Map)
 		n := f.ftVar
 		k := f.exprAs(b, ix.Index, mt.Key())
-		v := f.exprAs(b, rhs, mt.Elem())
+		v := rhsVal
 		t := f.fresh()
 		b.add(fmt.Sprintf("let %s ← mapSet %s.%s %s %s", t, n, fld, atom(k), atom(v)))
 		b.add(fmt.Sprintf("let %s := { %s with %s := %s }", n, n, fld, t))
@@ -1457,7 +1522,7 @@ func (f *fctx) store(b *blk, ix *ast.IndexExpr, rhs ast.Expr) {
 	if o != nil && isMap(o.Type()) {
 		mt := o.Type().Underlying().(*types.Map)
 		k := f.exprAs(b, ix.Index, mt.Key())
-		v := f.exprAs(b, rhs, mt.Elem())
+		v := rhsVal
 		n := f.nameOf(o)
 		b.add(fmt.Sprintf("let %s ← mapSet %s %s %s", n, n, atom(k), atom(v)))
 		return
@@ -1466,7 +1531,7 @@ func (f *fctx) store(b *blk, ix *ast.IndexExpr, rhs ast.Expr) {
 		if _, known := f.names[o]; known {
 			// a store into a local slice
 			i := f.expr(b, ix.Index)
-			x := f.exprAs(b, rhs, types.Typ[types.Uint8])
+			x := rhsVal
 			n := f.nameOf(o)
 			b.add(fmt.Sprintf("let %s ← vset %s 0 %s %s", n, n, atom(i), atom(x)))
 			return
@@ -1476,7 +1541,7 @@ func (f *fctx) store(b *blk, ix *ast.IndexExpr, rhs ast.Expr) {
 		f.fail(ix, "store into something that is not a written-through parameter")
 	}
 	i := f.expr(b, ix.Index)
-	v := f.exprAs(b, rhs, types.Typ[types.Uint8])
+	v := rhsVal
 	n := f.nameOf(o)
 	b.add(fmt.Sprintf("let %s ← vset %s %s_off %s %s", n, n, n, atom(i), atom(v)))
 }
@@ -2235,6 +2300,20 @@ func (f *fctx) callMulti(b *blk, call *ast.CallExpr, n int) []string {
 					b.add(fmt.Sprintf("let %s ← I.skip %s %s", t, rn, atom(a)))
 					b.add(setState(t + ".2"))
 					return []string{t + ".1"}
+				case "Malloc":
+					// a region of the abstract writer: its (dirty) initial contents as a local slice, a handle, an error
+					a := f.expr(b, call.Args[0])
+					b.add(fmt.Sprintf("let %s ← I.malloc %s %s", t, rn, atom(a)))
+					b.add(setState(t + ".2"))
+					f.pendingRegion = t + ".1.2.1"
+					return []string{t + ".1.1", t + ".1.2.2"}
+				case "WriteBinary":
+					a := f.expr(b, call.Args[0])
+					b.add(fmt.Sprintf("let %s ← I.writeBinary %s %s", t, rn, atom(a)))
+					b.add(setState(t + ".2"))
+					return []string{t + ".1.1", t + ".1.2"}
+				case "WrittenLen":
+					return []string{fmt.Sprintf("I.writtenLen %s", rn)}
 				case "SkipN":
 					a := f.expr(b, call.Args[0])
 					b.add(fmt.Sprintf("let %s ← I.skipN %s %s", t, rn, atom(a)))
